@@ -17,6 +17,7 @@ import (
 
 	"github.com/scionproto/scion/pkg/drkey"
 	"github.com/scionproto/scion/pkg/slayers"
+	"github.com/scionproto/scion/pkg/slayers/path/epic"
 	"github.com/scionproto/scion/pkg/spao"
 
 	"example.com/scion-time/base/logbase"
@@ -175,6 +176,11 @@ func runSCIONServer(ctx context.Context, log *slog.Logger, mtrcs *scionServerMet
 			scionLayer.DstIA, scionLayer.SrcIA = scionLayer.SrcIA, scionLayer.DstIA
 			scionLayer.DstAddrType, scionLayer.SrcAddrType = scionLayer.SrcAddrType, scionLayer.DstAddrType
 			scionLayer.RawDstAddr, scionLayer.RawSrcAddr = scionLayer.RawSrcAddr, scionLayer.RawDstAddr
+			// EPIC-HP protects the forward direction only: its hop validation fields
+			// cannot be computed for the way back, a reply uses the SCION path inside.
+			if epicPath, ok := scionLayer.Path.(*epic.Path); ok && epicPath.ScionPath != nil {
+				scionLayer.Path = epicPath.ScionPath
+			}
 			scionLayer.Path, err = scionLayer.Path.Reverse()
 			if err != nil {
 				log.LogAttrs(ctx, slog.LevelInfo, "failed to reverse path", slog.Any("error", err))
@@ -482,6 +488,11 @@ func runSCIONServer(ctx context.Context, log *slog.Logger, mtrcs *scionServerMet
 			scionLayer.DstIA, scionLayer.SrcIA = scionLayer.SrcIA, scionLayer.DstIA
 			scionLayer.DstAddrType, scionLayer.SrcAddrType = scionLayer.SrcAddrType, scionLayer.DstAddrType
 			scionLayer.RawDstAddr, scionLayer.RawSrcAddr = scionLayer.RawSrcAddr, scionLayer.RawDstAddr
+			// EPIC-HP protects the forward direction only: its hop validation fields
+			// cannot be computed for the way back, a reply uses the SCION path inside.
+			if epicPath, ok := scionLayer.Path.(*epic.Path); ok && epicPath.ScionPath != nil {
+				scionLayer.Path = epicPath.ScionPath
+			}
 			scionLayer.Path, err = scionLayer.Path.Reverse()
 			if err != nil {
 				log.LogAttrs(ctx, slog.LevelInfo, "failed to reverse path", slog.Any("error", err))
